@@ -43,6 +43,7 @@ def function_span(src: str, qual: str) -> Optional[Tuple[int, int]]:
     def visit(body, prefix):
         for n in body:
             if isinstance(n, ast.ClassDef):
+                found.setdefault(".".join(prefix + [n.name]), n)
                 visit(n.body, prefix + [n.name])
             elif isinstance(n, (ast.FunctionDef, ast.AsyncFunctionDef)):
                 is_set = any(isinstance(d, ast.Attribute) and d.attr == "setter" for d in n.decorator_list)
